@@ -134,6 +134,18 @@ def c12_stable(ctx, case):
     kap = 1.0 / float(np.prod(1 - np.abs(k) ** 2))
     ctx.close(k.astype(complex), ks, "returned reflection coefficients vs step-down of the returned polynomial",
               rtol=0, atol=1e-11 * kap)
+    # what was returned is the caller's: it changes the arrays in place (sign convention, zeroing) and fits the same record
+    # again -- the second answer is the first one
+    a_keep, k_keep = a.copy(), k.copy()
+    a_ret, _P2, k_ret = _aryule(case, x, x.tolist() if case["as_list"] else x)
+    if isinstance(a_ret, np.ndarray) and a_ret.flags.writeable:
+        a_ret *= -1
+    if isinstance(k_ret, np.ndarray) and k_ret.flags.writeable:
+        k_ret[:] = 0
+    a2, P2, k2 = _aryule(case, x, x.tolist() if case["as_list"] else x)
+    ctx.check(np.array_equal(np.asarray(a2), a_keep) and np.array_equal(np.asarray(k2), k_keep) and P2 == P,
+              "aryule on the same record gives another answer after the caller changed the arrays of the previous answer in place",
+              sig={"clause": "returned-arrays"})
 
 
 @sub("C12.acf", strategy=yw_case(), quick=800, thorough=40000,
@@ -218,6 +230,13 @@ def c12_lpc(ctx, case):
     ctx.close(al.astype(complex), np.asarray(a).astype(complex), "lpc vs aryule coefficients",
               rtol=0, atol=(1e-10 + 1e-12 * cond) * scale)
     ctx.check(np.isrealobj(al), "lpc returned complex coefficients for real data")
+    if len(x) <= 24:
+        # the documented default order (length - 1) is the explicit order length - 1
+        ld = np.asarray(spectrum.lpc(x.tolist() if case["as_list"] else x.copy())[0])
+        le = np.asarray(spectrum.lpc(x.tolist() if case["as_list"] else x.copy(), len(x) - 1)[0])
+        ctx.check(ld.shape == le.shape and np.array_equal(ld, le, equal_nan=True),
+                  "lpc(x) returns %d coefficients, lpc(x, len(x)-1) %d (N=%d)%s" % (ld.size, le.size, len(x), "" if ld.shape != le.shape else ": different values"),
+                  sig={"clause": "lpc-default-order"})
     if p >= 2:
         # the same record again at a lower order (an order scan downwards): each call stands alone
         q = max(1, p // 2)
@@ -322,4 +341,10 @@ from vlib import lifecheck as _life   # noqa: E402
          "bit-identical to what it was, and after p.data *= g, p.data -= mean or the construction buffer refilled in place and "
          "assigned again equals that of a fresh object on the samples now held: pyule")
 def c12_life(ctx, case):
+    _life.body(ctx, case)
+
+
+@sub("C12.life_grid", enum=_life.life_enum(['pyule']), exhaustive=True, shards_quick=2, shards_thorough=2,
+     doc="the same on a fixed grid: every action x real/complex x default/centred layout for pyule")
+def c12_life_grid(ctx, case):
     _life.body(ctx, case)
